@@ -181,6 +181,9 @@ T('tpm2::TpmClient1_2', 'new', HDR(b'TCPA', 2) + [u16(0), u32('log_area_min_len'
 T('tpm2::TpmServer1_2', 'new', HDR(b'TCPA', 2) + [u16(1), u16(0, 'reserved'), u64(0), u64(0), raw(bytes([1, 2]), 2), u8(0), u8(0), u8(0), raw(bytes(3), 3, 'reserved'), u32(0)] + GAS_DEFAULT + [u32(0, 'reserved')] + GAS_DEFAULT + [u8(0), u8(0), u8(0), u8(0)])
 T('tpm2::Tpm2', 'new', HDR(b'TPM2', 1) + [u16(lambda P: discr('platform_class')), u16(0, 'reserved'), u64('crb_or_fifo_base'), u32(lambda P: discr('start_method'))])
 S('gas::GAS', 'new', [u8(lambda P: discr('address_space_id')), u8('register_bit_width'), u8('register_bit_offset'), u8(lambda P: discr('access_size')), u64('address')], None, size=12)
+# ACPI 6.5 table 5.1, PCI Configuration space: address space id 2; the 64-bit address is  reserved(16) | device(16) | function(16) | register offset(16)
+S('gas::GAS', 'new_pci_config', [u8(2), u8('register_bit_width'), u8(0), u8(lambda P: discr('access_size')),
+    u64(lambda P: bor(bor(shl(A_('device'), C(32)), shl(A_('function'), C(16))), A_('register')))], None, size=12)
 S('rsdp::Rsdp', 'new', [raw(b'RSD PTR ', 8), u8(None, 'checksum'), raw('oem_id', 6), u8(2), u32(0, 'reserved'), u32(36, 'len'), u64('xsdt_addr'), u8(None, 'checksum'), raw(bytes(3), 3, 'reserved')], None, size=36)
 S('facs::FACS', 'new', [raw(b'FACS', 4), u32(64, 'len'), u32(0), u32(0), u32(0), u32(0), u64(0), u8(1), raw(bytes(3), 3, 'reserved'), u32(0), raw(bytes(24), 24, 'reserved')], None, size=64)
 
